@@ -37,6 +37,10 @@ CHECKS.update({
  'C10': ('symbolic execution of the real string_to_bytes / _extract_bytes: text characters symbolic (regex through the re model), the parsed number an opaque symbolic IEEE double; result compared bit-for-bit (z3 FloatingPoint) with an independent prefix table and base rule',
          'Text = sign + <=3 (thorough 4) magnitude chars + <=2 prefix chars + <=3 unit chars, all symbolic; float(str) is opaque (decimal->double conversion outside the claim); |m| <= 1e200.'),
 })
+CHECKS.update({
+ 'C17': ('symbolic execution of the real version helpers: integer components symbolic (linear integer arithmetic decides round trip and order preservation for all values in range), version strings with symbolic digits through the re model, PEP 440 objects replaced by a contract stub with arbitrary symbolic ordering keys',
+         'Components 0..999, 1..5 of them; strings of 1..2 digits per component; predicates of 1..2 (thorough 3) comparators with symbolic operator characters and whitespace. PEP 440 parsing/ordering itself belongs to packaging (stub: arbitrary total pre-order key + major).'),
+})
 NA = {
 }
 def main():
